@@ -110,6 +110,7 @@ func c20Gen(g *core.Gen) {
 				{"create", "-s", "4", "-c", "32768", "{PAR}", "{F0}"}, {"create", "-s", "4", "-c", "65536", "{PAR}", "{F0}"}, {"create", "-s", "4", "-c", "65535", "{PAR}", "{F0}"}, {"create", "-s", "4", "-c", "65534", "{PAR}", "{F0}"}, {"create", "-s", "4", "-c", "100", "{PAR}", "{F0}", "{F1}"},
 				{"-g", "0", "create", "-s", "4", "{PAR}", "{F0}", "{F1}"}, {"-g", "-3", "create", "-s", "4", "{PAR}", "{F0}", "{F1}"}, {"-g", "100000", "create", "-s", "4", "{PAR}", "{F0}", "{F1}"},
 				{"create", "-s", "4", "{PAR}", "{F0}", "{LK0}", "{LK1}", "{LK2}"}, {"create", "-s", "4", "{PAR}", "{LK0}", "{F1}"}, {"create", "-s", "4", "{PAR}", "{LK2}", "{LK1}"},
+				{"create", "-s", "4", "{PAR}", "{GL0}", "{F1}"}, {"create", "-s", "4", "{PAR}", "{GL1}", "{F0}"}, {"create", "-s", "4", "{PAR}", "{GL2}"},
 				{"create", "-s", "4", "{PAR}", "{F0}", "{F0}"}, {"create", "-s", "4", "{PAR}", "{PAR}"}, {"create", "-s", "4", "{PAR}"},
 			} {
 				g.Emit(&c20Case{Fmt: f, Cmd: c, Class: "create", State: "boundary", Cwd: cw})
@@ -196,6 +197,17 @@ func c20Run(ci interface{}, r *core.Rec) {
 	index := filepath.Join(setDir, "s"+ext)
 	// data files whose names look like members of the set (index base + ".p...", ".par2...", ".vol...")
 	lookalikes := map[string][]byte{}
+	// data files whose names are glob patterns that match their neighbours (f[0] beside f0, f? beside f0 and f1, * beside
+	// everything): the name on the command line is a name
+	for i, n := range []string{"f[0]", "f?", "*"} {
+		for _, a := range c.Cmd {
+			if a == fmt.Sprintf("{GL%d}", i) {
+				d := scen.Content("uniq", r.Seed, 30+i, 10+i, 4)
+				ioutil.WriteFile(filepath.Join(setDir, n), d, 0644)
+				lookalikes[filepath.Join(setDir, n)] = d
+			}
+		}
+	}
 	for i, n := range []string{"s.pdf", "s.par2.txt", "s.vol-notes"} {
 		usesIt := false
 		for _, a := range c.Cmd {
@@ -428,6 +440,12 @@ func c20Run(ci interface{}, r *core.Rec) {
 				a = spell(paths[0])
 			case "{F1}":
 				a = spell(paths[1])
+			case "{GL0}":
+				a = spell(filepath.Join(setDir, "f[0]"))
+			case "{GL1}":
+				a = spell(filepath.Join(setDir, "f?"))
+			case "{GL2}":
+				a = spell(filepath.Join(setDir, "*"))
 			case "{LK0}":
 				a = spell(filepath.Join(setDir, "s.pdf"))
 			case "{LK1}":
@@ -578,6 +596,8 @@ func c20Run(ci interface{}, r *core.Rec) {
 					inputs = append(inputs, paths[0])
 				case "{F1}":
 					inputs = append(inputs, paths[1])
+				case "{GL0}", "{GL1}", "{GL2}":
+					inputs = append(inputs, filepath.Join(setDir, map[string]string{"{GL0}": "f[0]", "{GL1}": "f?", "{GL2}": "*"}[a]))
 				case "{LK0}", "{LK1}", "{LK2}":
 					_ = i
 					inputs = append(inputs, filepath.Join(setDir, map[string]string{"{LK0}": "s.pdf", "{LK1}": "s.par2.txt", "{LK2}": "s.vol-notes"}[a]))
